@@ -248,7 +248,7 @@ def grammar_text(schema):
 
     def match_text(m):
         if m["kind"] == "re":
-            return f"{m['name']}: /\\{m['prefix']}[a-z0-9]+/;"
+            return f"{m['name']}: /{re_pattern(m)}/;"
         if m["kind"] == "seq":
             return f"{m['name']}: '{m['prefix']}' INT ':' INT;"
         return f"{m['name']}: " + " | ".join(m["alts"]) + ";"
@@ -270,6 +270,79 @@ def grammar_text(schema):
     for m in schema["matches"]:
         lines.append(match_text(m))
     return "\n".join(lines) + "\n"
+
+
+# shapes of a regexp match rule (C33: `use_regexp_group` takes the value of a regexp with exactly one group
+# from the group; the match still starts where the whole regexp matched):
+#   plain  no group                      g1   one group behind a fixed part and optional white space
+#   g1s    one group at the match start  g2   two groups            g0   only a non-capturing group
+#   g1n    one capturing group behind a non-capturing one and optional white space
+RE_SHAPES = ["plain", "g1", "g1s", "g2", "g0", "g1n"]
+
+
+def re_pattern(m):
+    p, shape = "\\" + m["prefix"], m.get("shape", "plain")
+    return {
+        "plain": p + "[a-z0-9]+",
+        "g1": p + "<\\s*([a-z0-9]+)>",
+        "g1s": "(" + p + "[a-z0-9]+)!",
+        "g2": p + "([a-z]+)=\\s*([a-z0-9]+)",
+        "g0": p + "(?:<)\\s*[a-z0-9]+>",
+        "g1n": p + "(?:<|=)\\s*([a-z0-9]+)>",
+    }[shape]
+
+
+def re_lit(m, body, ws=""):
+    """text of a value of regexp match rule `m` (`body`: the identifier part, `ws`: white space inside the match)."""
+    p, shape = m["prefix"], m.get("shape", "plain")
+    return {
+        "plain": p + body,
+        "g1": p + "<" + ws + body + ">",
+        "g1s": p + body + "!",
+        "g2": p + "k=" + ws + body,
+        "g0": p + "<" + ws + body + ">",
+        "g1n": p + "=" + ws + body + ">",
+    }[shape]
+
+
+def re_group_start(m, lit):
+    """offset inside `lit` at which the only capturing group of the rule's regexp starts (None: not exactly one)."""
+    shape = m.get("shape", "plain")
+    if shape == "g1s":
+        return 0
+    if shape in ("g1", "g1n"):
+        return len(lit) - 1 - len(lit[2:-1].lstrip())
+    return None
+
+
+def apply_re_shapes(case, rng, p_shape=0.7):
+    """give the regexp match rules of a generated case one of `RE_SHAPES` and rewrite their values
+    (white space inside a match is chosen here, per value, so that rendering stays a function of the case)."""
+    mm = {m["name"]: m for m in case["schema"]["matches"]}
+    for m in mm.values():
+        if m["kind"] == "re" and rng.chance(p_shape):
+            m["shape"] = rng.weighted([("g1", 5), ("g1n", 2), ("g1s", 1), ("g2", 2), ("g0", 1)])
+
+    def fix(v):
+        if isinstance(v, list):
+            for x in v:
+                fix(x)
+        elif isinstance(v, dict):
+            if "uid" in v:
+                for x in v["vals"].values():
+                    fix(x)
+            elif "inner" in v:
+                fix(v["inner"])
+                v["lit"] = v["inner"]["lit"]
+            elif v.get("rule") in mm and mm[v["rule"]]["kind"] == "re" and "shape" in mm[v["rule"]]:
+                m = mm[v["rule"]]
+                body = v.setdefault("body", v["lit"][len(m["prefix"]):])
+                ws = rng.weighted([("", 3), (" ", 2), ("\n", 2), ("\n   ", 2), ("  \n\n ", 1)])
+                v["lit"] = re_lit(m, body, ws)
+
+    for f in case["files"]:
+        fix(f["root"])
+    return [m["name"] for m in mm.values() if "shape" in m]
 
 
 def root_rule(schema):
